@@ -1,9 +1,12 @@
 """C12 - one number type: int and float spellings of a number are interchangeable."""
 
 import collections
+import contextlib
 import datetime
 import math
 import re
+import signal
+import threading
 from fractions import Fraction
 
 import fw
@@ -34,6 +37,8 @@ EXCLUDED = {
     'systemFetch': 'fetch (excluded by the property; no fetchFn is passed)',
 }
 SPELLINGS = ('int', 'float', 'mix')
+SPELLINGS_EXT = ('int', 'float', 'mix', 'xim')   # 'xim': alternating, the first number a float (mix: the first an int)
+SPELLINGS_SUB = ('intsub', 'floatsub')           # instances of host SUBCLASSES of int / float: host ints and floats all the same
 LIMIT = 10 ** 15
 
 
@@ -43,6 +48,8 @@ LIMIT = 10 ** 15
 #   {'fn': name} | {'same': i} (the identical object as top-level argument i)
 #   a container may carry 'cls': the HOST-CREATED dict / list subclass it is an instance of ({'a': [...], 'cls': 'MyList'},
 #   {'o': [...], 'cls': 'OrderedDict'}); without 'cls' it is the plain list / dict scripts create themselves
+#   HOST-ONLY values of an unexpected but indexable type: {'tuple': [...]} | {'bytes': text} | {'range': n} | {'ikeys': [[int, v]...]} (a
+#   dict with int keys) | {'strsub': text} (an instance of a str subclass)
 # ---------------------------------------------------------------------------------------------------------------------
 
 class MyDict(dict):
@@ -58,6 +65,18 @@ class SlotList(list):
     __slots__ = ()
 
 
+class MyStr(str):
+    """An application's own string class."""
+
+
+class HostInt(int):
+    """A host number type derived from int (what an application's id / count / enum-like type is)."""
+
+
+class HostFloat(float):
+    """A host number type derived from float."""
+
+
 def _defaultdict():
     return collections.defaultdict(list)
 
@@ -67,6 +86,37 @@ OBJ_CLASSES = {'OrderedDict': collections.OrderedDict, 'defaultdict': _defaultdi
 ARR_CLASSES = {'MyList': MyList, 'SlotList': SlotList}
 OBJ_CLASS_NAMES = sorted(OBJ_CLASSES)
 ARR_CLASS_NAMES = sorted(ARR_CLASSES)
+
+
+class CallTimeout(BaseException):
+    """Raised inside the implementation when one call used more CPU time than allowed (not an Exception: the library's and the
+    runtime's `except Exception` must not swallow it)."""
+
+
+CALL_CPU_S = 5.0        # CPU seconds (ITIMER_VIRTUAL: independent of machine load and of check.py's SIGALRM budget); a call takes < 0.1 s
+_SLOW = {}              # function / kind that timed out once -> a short limit from then on
+
+
+@contextlib.contextmanager
+def cpu_limit(key):
+    """The implementation must never be able to hang the check: a call that spins (in one spelling only, say, because a range check
+    is skipped for it) is cut off and reported as the outcome 'TIMEOUT', which the other spelling then differs from."""
+    if threading.current_thread() is not threading.main_thread() or not hasattr(signal, 'setitimer'):
+        yield
+        return
+
+    def on_timer(_sig, _frame):
+        raise CallTimeout()
+    old = signal.signal(signal.SIGVTALRM, on_timer)
+    signal.setitimer(signal.ITIMER_VIRTUAL, _SLOW.get(key, CALL_CPU_S))
+    try:
+        yield
+    except CallTimeout:
+        _SLOW[key] = 0.1
+        raise
+    finally:
+        signal.setitimer(signal.ITIMER_VIRTUAL, 0)
+        signal.signal(signal.SIGVTALRM, old)
 
 
 def N(n):
@@ -129,6 +179,12 @@ class Speller:
             return int(n)
         if self.spelling == 'float':
             return float(n)
+        if self.spelling == 'xim':
+            return float(n) if self.count % 2 else int(n)
+        if self.spelling == 'intsub':
+            return HostInt(n)
+        if self.spelling == 'floatsub':
+            return HostFloat(n)
         return int(n) if self.count % 2 else float(n)
 
 
@@ -156,15 +212,28 @@ def build(enc, sp):
     if 'fn' in enc:
         e = env()
         return e['script'][enc['fn']] if enc['fn'] in e['script'] else e['lib'].SCRIPT_FUNCTIONS[enc['fn']]
+    if 'tuple' in enc:
+        return tuple(build(x, sp) for x in enc['tuple'])
+    if 'bytes' in enc:
+        return enc['bytes'].encode('utf-8')
+    if 'range' in enc:
+        return range(enc['range'])
+    if 'ikeys' in enc:
+        return {int(k): build(v, sp) for k, v in enc['ikeys']}
+    if 'strsub' in enc:
+        return MyStr(enc['strsub'])
     raise ValueError(f'bad encoded value {enc!r}')
 
 
-def build_args(encs, spelling):
+def build_args(encs, spelling, negzero=()):
+    """`negzero`: top-level positions holding the number 0 that are built as the float -0.0 (an integral float whose int spelling is 0)."""
     sp = Speller(spelling)
     out = []
-    for enc in encs:
+    for ix, enc in enumerate(encs):
         if isinstance(enc, dict) and 'same' in enc:
             out.append(out[enc['same']])
+        elif ix in negzero and enc == {'n': 0}:
+            out.append(-0.0)
         else:
             out.append(build(enc, sp))
     return out
@@ -211,16 +280,20 @@ def canon(v, stack=()):
     return ['other', type(v).__name__, str(v)]
 
 
-def run_call(case, spelling):
-    """One library call through the real call path (evaluate_expression of a function-call expression over variables)."""
+def run_call(case, spelling, negzero=()):
+    """One library call through the real call path (evaluate_expression of a function-call expression over variables).
+    With case['expr'] = <name> the call goes through the built-in EXPRESSION function of that name (`fromCharCode`, `slice`, ...: the
+    `builtins` lookup of evaluate_expression, the path of dataFilter / dataCalculatedField expressions) instead of a global."""
     m = fw.impl()
     lib, rt, val = m['library'], m['runtime'], m['value']
     e = env()
     fname = case['fn']
-    args = build_args(case['args'], spelling)
+    via_expr = case.get('expr')
+    call_name = via_expr or fname
+    args = build_args(case['args'], spelling, negzero)
     inner = []
     args_errors = []
-    real = lib.SCRIPT_FUNCTIONS[fname]
+    real = lib.EXPRESSION_FUNCTIONS[via_expr] if via_expr else lib.SCRIPT_FUNCTIONS[fname]
 
     def wrapper(fargs, options):
         try:
@@ -236,20 +309,36 @@ def run_call(case, spelling):
         return res
 
     g = dict(e['script'])
-    base_names = set(g) | {fname}
-    g[fname] = wrapper
+    base_names = set(g) | {call_name}
+    if via_expr:
+        g.pop(via_expr, None)
+    else:
+        g[fname] = wrapper
     for i, a in enumerate(args):
         g[f'a{i}'] = a
         base_names.add(f'a{i}')
     log = []
     opts = {'globals': g, 'maxStatements': 20000, 'statementCount': 0, 'logFn': log.append, 'debug': True}
-    expr = {'function': {'name': fname, 'args': [{'variable': f'a{i}'} for i in range(len(args))]}}
+    expr = {'function': {'name': call_name, 'args': [{'variable': f'a{i}'} for i in range(len(args))]}}
     escaped = None
     res = None
     try:
-        res = rt.evaluate_expression(expr, opts)
+        with cpu_limit(fname):
+            res = rt.evaluate_expression(expr, opts)
+    except CallTimeout:
+        escaped = 'TIMEOUT'
     except Exception as exc:  # pylint: disable=broad-except
         escaped = type(exc).__name__
+    if via_expr:
+        # no wrapper on the built-in path: the failure and the library's argument-error text are read from the debug log
+        prefix = f'BareScript: Function "{call_name}" failed with error: '
+        for ln in log:
+            if ln.startswith(prefix):
+                inner.append('failed')
+                if ln[len(prefix):].startswith(('Invalid "', 'Too many arguments (')):
+                    args_errors.append(ln[len(prefix):])
+        if not inner:
+            inner.append('ok')
     out = {
         'result': canon(res),
         'type': val.value_type(res),
@@ -259,13 +348,16 @@ def run_call(case, spelling):
         'result_is_arg': [i for i, a in enumerate(args) if res is a and isinstance(a, (list, dict))],
         'globals': [[k, canon(v)] for k, v in g.items() if k not in base_names],
         'log': [ln for ln in log if not ln.startswith('BareScript: Function "') or
-                any(ln == f'BareScript: Function "{fname}" failed with error: {msg}' for msg in args_errors)],
+                any(ln == f'BareScript: Function "{call_name}" failed with error: {msg}' for msg in args_errors)],
         'args_errors': args_errors,
     }
     # a function result: apply it to no arguments and compare what it computes
     if callable(res) and escaped is None:
         try:
-            out['applied'] = canon(res([], opts))
+            with cpu_limit(fname):
+                out['applied'] = canon(res([], opts))
+        except CallTimeout:
+            out['applied'] = ['raised', 'TIMEOUT']
         except Exception as exc:  # pylint: disable=broad-except
             out['applied'] = ['raised', type(exc).__name__]
     return out, (inner[0] if inner else None)
@@ -701,8 +793,11 @@ def run_op(case, spl, spr):
         expr = {'binary': {'op': case['op'], 'left': {'variable': 'l'}, 'right': {'variable': 'r'}}}
     before = {k: canon(v) for k, v in g.items()}
     try:
-        res = rt.evaluate_expression(expr, {'globals': g, 'maxStatements': 1000, 'statementCount': 0})
+        with cpu_limit('op' + case['op']):
+            res = rt.evaluate_expression(expr, {'globals': g, 'maxStatements': 1000, 'statementCount': 0})
         out = {'result': canon(res), 'type': m['value'].value_type(res)}
+    except CallTimeout:
+        out = {'escaped': 'TIMEOUT'}
     except Exception as exc:  # pylint: disable=broad-except
         out = {'escaped': type(exc).__name__}
     out['operands_unchanged'] = before == {k: canon(v) for k, v in g.items()}
@@ -810,8 +905,11 @@ def run_script(model):
     g = {}
     opts = {'globals': g, 'maxStatements': 20000, 'logFn': log.append}
     try:
-        res = m['runtime'].execute_script(model, opts)
+        with cpu_limit('script'):
+            res = m['runtime'].execute_script(model, opts)
         out = {'result': canon(res)}
+    except CallTimeout:
+        out = {'raised': 'TIMEOUT'}
     except Exception as exc:  # pylint: disable=broad-except
         out = {'raised': type(exc).__name__, 'message': str(exc)}
     out['globals'] = sorted([k, canon(v)] for k, v in g.items() if not callable(v))
@@ -1042,8 +1140,11 @@ def run_hscript(case, literal_spelling, host_spelling):
     log = []
     opts = {'globals': g, 'maxStatements': 20000, 'logFn': log.append, 'debug': True}
     try:
-        res = m['runtime'].execute_script(model, opts)
+        with cpu_limit('hscript'):
+            res = m['runtime'].execute_script(model, opts)
         out = {'result': canon(res)}
+    except CallTimeout:
+        out = {'raised': 'TIMEOUT'}
     except Exception as exc:  # pylint: disable=broad-except
         out = {'raised': type(exc).__name__, 'message': str(exc)}
     out['globals'] = sorted([k, canon(v)] for k, v in g.items() if not callable(v))
@@ -1063,14 +1164,761 @@ def hscript_differs(case):
 
 
 # ---------------------------------------------------------------------------------------------------------------------
+# Boundary VALUES and unexpected argument TYPES.  The generators above draw numbers from a few small sets, so a branch that is only
+# taken for particular VALUES (a surrogate-pair of char codes, a code above 0xFFFF, an index equal to the length, a radix / digit count
+# of one particular size, a huge count, the zero that is spelled -0.0) or for a first argument of an unexpected but indexable TYPE (a
+# string / object / host tuple where an array is expected) is practically never entered - and that is exactly where an int-only or
+# float-only idiom (<<, range(), list[i], '%*d', a `type(x) is int` fast path) shows. The families below put a rich pool of boundary
+# values at EVERY argument position of EVERY function (one position, two positions, any depth inside container arguments), and one
+# argument of every other type at every position, and compare the int / float / alternating (both phases) spellings and the -0.0
+# spelling of an integer-typed zero; the same calls again through the expression-function names, through dataCalculatedField
+# expression text, as script text with the numbers produced in different ways, and in a fresh interpreter in the opposite order.
+# ---------------------------------------------------------------------------------------------------------------------
+
+def _dedupe(xs):
+    out = []
+    for x in xs:
+        if x not in out:
+            out.append(x)
+    return out
+
+
+CHAR_CODES = [0, 1, 9, 10, 31, 32, 65, 97, 127, 128, 255, 256, 0x7ff, 0x800, 0xd7ff, 0xd800, 0xd83d, 0xdbff, 0xdc00, 0xde00, 0xdfff, 0xe000,
+              0xfeff, 0xfffd, 0xffff, 0x10000, 0x1f600, 0x10ffff, 0x110000]
+V_SMALL = list(range(0, 38))                       # every radix, every digit count below the F15 boundary, months, hours, ...
+V_LARGE = [59, 60, 61, 99, 100, 101, 365, 366, 999, 1000, 1001, 1023, 1024, 4095, 4096, 9999, 10000, 10001, 65535, 65536, 10 ** 6,
+           2 ** 31 - 1, 2 ** 31, 2 ** 32 - 1, 2 ** 32, 2 ** 49, 10 ** 14, 10 ** 15 - 1]
+V_NEG = [-1, -2, -3, -10, -11, -12, -13, -31, -32, -100, -10000, -10001, -(2 ** 31), -(10 ** 14), -(10 ** 15 - 1)]
+VALUE_POOL = _dedupe(V_SMALL + V_LARGE + V_NEG + CHAR_CODES)
+PAIR_POOL = _dedupe([0, 1, 2, 3, 9, 10, 12, 13, 31, 32, 0x7f, 0x80, 0xff, 0x100, 0xd7ff, 0xd800, 0xd83d, 0xdbff, 0xdc00, 0xde00, 0xdfff, 0xe000,
+                     0xffff, 0x10000, 0x1f600, 0x10ffff, 0x110000, -1])
+ANY_POOL = _dedupe([0, 1, 2, 3, -1, -2, 10, 16, 22, 23, 36, 37, 100, 127, 128, 255, 256, 1000, 1024, 0xd7ff, 0xd800, 0xd83d, 0xdbff, 0xdc00, 0xdfff,
+                    0xe000, 0xffff, 0x10000, 0x10ffff, 0x110000, 10 ** 6, 2 ** 31 - 1, 2 ** 31, 2 ** 32, 2 ** 49, 10 ** 14, 10 ** 15 - 1, -(2 ** 31),
+                    -(10 ** 15 - 1)])           # a value of any type inside an argument model (quick tier; thorough: the full pool)
+NONNUM_POOL = [0, 1, 3, 55357, 10 ** 14]          # numbers at a position that does not take a number
+VSTRINGS = ['', 'a', 'abc', 'hello world', 'a\U0001f600b', '\U0001f600', '\U0001f600\U0001f601', 'éx', 'ßİi', 'ab\ud83d', '\ude00z',
+            '12', 'ff', 'zz', 'Z', '-7', ' 42 ', '١٢', '1_0', 'a,b,,c', 'aXbXc']
+PARSE_TEXTS = ['0', '1', '10', '101', 'z', 'Z', 'ff', 'FF', '-7', '+7', ' 12 ', '١٢', '1_0', '0x1f', '0b11', '0o17', '', '99999999999999', '9', 'g']
+ROUND_XS = [{'f': '0.5'}, {'f': '1.5'}, {'f': '2.5'}, {'f': '-2.5'}, {'f': '2.675'}, {'f': '1.005'}, {'f': '1234.5678'}, {'f': '0.000123'}, {'f': '1e-07'},
+            {'n': 0}, {'n': 7}, {'n': -50}, {'n': 10 ** 14 + 7}, {'f': '123456789.123'}]
+WRONG_VALUES = [
+    'abc', 'a\U0001f600b', '', A('a', 'b', 'c'), A(N(1), N(2), N(3)), A(), O(['0', 'x'], ['1', 'y'], ['2', 'z']), O(['length', N(3)], ['0', 'x']), O(),
+    {'tuple': ['a', 'b', 'c']}, {'tuple': [N(1), N(2)]}, {'bytes': 'abc'}, {'range': 3}, {'ikeys': [[0, 'x'], [1, 'y'], [2, 'z']]}, {'strsub': 'abc'},
+    {'a': ['a', 'b', 'c'], 'cls': 'MyList'}, {'o': [['0', 'x'], ['1', 'y']], 'cls': 'MyDict'}, None, True, N(3), {'f': '1.5'},
+    {'dt': [2020, 1, 31, 10, 20, 30, 500000]}, {'re': ['a+', 0]}, {'fn': 'arrayGet'}]
+HOST_ONLY_KEYS = ('tuple', 'bytes', 'range', 'ikeys', 'strsub')
+NEGZERO_KEYS = ('result', 'type', 'escaped', 'failed', 'args_after', 'result_is_arg', 'globals')
+FRESH_ORDER = ('float', 'xim', 'mix', 'int')
+_MODELS = {}
+
+
+def models_cached():
+    lib = fw.impl()['library']
+    if _MODELS.get('lib') is not lib:
+        _MODELS.clear()
+        _MODELS.update({'lib': lib, 'models': arg_models()})
+    return _MODELS['models']
+
+
+def is_num(enc):
+    return isinstance(enc, dict) and 'n' in enc and len(enc) == 1
+
+
+def negzero_positions(case):
+    """Top-level positions holding 0 whose argument model says `integer` (index, count, size, radix, digit count, datetime component):
+    there the float -0.0 is one more spelling of the same integral number (elsewhere IEEE gives it a meaning of its own: atan2)."""
+    model = models_cached().get(case['fn'])
+    if model is None:
+        return ()
+    return tuple(ix for ix, am in enumerate(model[1]) if ix < len(case['args']) and am.get('type') == 'number' and am.get('integer') and
+                 not am.get('lastArgArray') and case['args'][ix] == {'n': 0})
+
+
+def call_differs_ext(case):
+    """int / float / both alternating spellings + the -0.0 spelling of an integer-typed zero (compared without the message texts:
+    value_json prints -0.0 as -0, the observation of LEVEL_NOTE)."""
+    outs, classes = {}, {}
+    for sp in SPELLINGS_EXT + (SPELLINGS_SUB if case.get('ext') == 2 else ()):
+        outs[sp], classes[sp] = run_call(case, sp)
+    nz = negzero_positions(case)
+    if nz:
+        o, classes['negzero'] = run_call(case, 'float', nz)
+        outs['negzero'] = dict(outs['int'], **{k: o[k] for k in NEGZERO_KEYS})
+        if 'applied' in o or 'applied' in outs['int']:
+            outs['negzero']['applied'] = o.get('applied')
+    differ = any(v != outs['int'] for v in outs.values())
+    return differ, outs, classes
+
+
+def has_key(enc, keys):
+    if isinstance(enc, dict):
+        if any(k in enc for k in keys):
+            return True
+        for k in ('a', 'tuple'):
+            if k in enc:
+                return any(has_key(x, keys) for x in enc[k])
+        if 'o' in enc:
+            return any(has_key(v, keys) for _, v in enc['o'])
+    return False
+
+
+def tame_ext(fname, args):
+    """`tame` with a higher ceiling for the size arguments (huge counts are one of the boundary classes) and the digit count of a
+    partially applied mathRound kept finite."""
+    keep = {}
+    for ix in SIZE_ARGS.get(fname, ()):
+        if fname != 'jsonStringify' and ix < len(args) and is_num(args[ix]) and args[ix]['n'] > 3000:
+            n = args[ix]['n']
+            if fname == 'stringRepeat':
+                keep[ix] = N(n if n <= 70000 else 70000)
+            else:
+                keep[ix] = N(n if n in (4095, 4096) else 3001)
+    args = tame(fname, list(args))
+    for ix, v in keep.items():
+        args[ix] = v
+    if fname == 'datetimeNew' and len(args) > 2 and is_num(args[2]) and abs(args[2]['n']) > 10 ** 6:
+        # the day is bounded by the argument model (+-10000); should the bound not be applied, the carry is walked month by month
+        args[2] = N(10 ** 6 if args[2]['n'] > 0 else -(10 ** 6))
+    if fname == 'systemPartial' and args and isinstance(args[0], dict) and args[0].get('fn') in ('mathRound', 'numberToFixed'):
+        for ix in range(2, len(args)):
+            if is_num(args[ix]) and args[ix]['n'] > 400:
+                args[ix] = N(400)
+    if any(isinstance(a, str) and 'rept(' in a for a in args):
+        # an expression string that repeats text by a row value: keep every number of the case small enough to allocate
+        args = [cap_nums(a, 70000) for a in args]
+    return args
+
+
+def cap_nums(enc, hi):
+    if is_num(enc):
+        return N(min(enc['n'], hi))
+    if isinstance(enc, dict) and 'a' in enc:
+        return dict(enc, a=[cap_nums(x, hi) for x in enc['a']])
+    if isinstance(enc, dict) and 'o' in enc:
+        return dict(enc, o=[[k, cap_nums(v, hi)] for k, v in enc['o']])
+    return enc
+
+
+def ignores_args(fname):
+    """A function whose code never reads its argument list (mathPi, schemaTypeModel: the parameter is named unused_*)."""
+    code = getattr(fw.impl()['library'].SCRIPT_FUNCTIONS[fname], '__code__', None)
+    return code is not None and code.co_argcount >= 1 and code.co_varnames[0].startswith('unused')
+
+
+def positions_of(fname, models):
+    """[(argument position, argument-model type or None = any)]: every position of the argument model (three of a variable tail);
+    positions 0..2 of a function without an argument model (one position, taken as not number-taking, if its code ignores them)."""
+    if fname not in models:
+        return [(0, 'ignored')] if ignores_args(fname) else [(0, None), (1, None), (2, None)]
+    out = []
+    for p, am in enumerate(models[fname][1]):
+        if am.get('lastArgArray'):
+            out += [(p, None), (p + 1, None), (p + 2, None)]
+        else:
+            out.append((p, am.get('type')))
+    return out
+
+
+def full_args(rng, fname, models, upto, strings=True):
+    """A mostly valid argument list of `fname` (directed generator, else the argument model) with at least `upto` + 1 arguments; the
+    subject string of the string functions is often one with astral / combining / case-expanding / lone-surrogate characters."""
+    args = None
+    if fname in SPECIAL:
+        try:
+            args = SPECIAL[fname](rng, fname)
+        except KeyError:
+            args = None
+    model = models[fname][1] if fname in models else None
+    if args is None:
+        args = gen_from_model(rng, fname, model) if model else []
+    args = list(args)
+    while len(args) <= upto:
+        ix = len(args)
+        if model and ix < len(model) and not model[ix].get('lastArgArray'):
+            args.append(gen_typed(rng, fname, model[ix], args))
+        elif fname in ('stringFromCharCode', 'mathMax', 'mathMin'):
+            args.append(N(rng.randint(65, 90)))
+        else:
+            args.append(gen_any(rng))
+    if strings and model and fname.startswith('string') and model[0].get('type') == 'string' and isinstance(args[0], str) and rng.random() < 0.5:
+        args[0] = rng.choice(VSTRINGS)
+        if len(model) > 1 and model[1].get('type') == 'string' and len(args) > 1 and rng.random() < 0.7:
+            s = args[0]
+            i = rng.randint(0, max(len(s) - 1, 0))
+            args[1] = rng.choice([s[i:i + 1], s[i:i + 2], s[-1:], s, '', 'X', ','])
+    return args
+
+
+def rel_values(args, skip=None):
+    """Numbers that are boundaries relative to the other arguments: length - 1, length, length + 1 of every string / array / object."""
+    out = []
+    for ix, a in enumerate(args):
+        if ix == skip:
+            continue
+        ln = len(a) if isinstance(a, str) else (len(a['a']) if isinstance(a, dict) and 'a' in a else (len(a['o']) if isinstance(a, dict) and 'o' in a else None))
+        if ln is not None:
+            out += [ln - 1, ln, ln + 1]
+    return _dedupe(out)
+
+
+def bound_values(am):
+    out = []
+    for k in ('gte', 'gt', 'lte', 'lt', 'default'):
+        b = am.get(k)
+        if isinstance(b, (int, float)) and not isinstance(b, bool) and float(b).is_integer():
+            out += [int(b) - 1, int(b), int(b) + 1]
+    return out
+
+
+def ext_case(fname, args, expr=None, ext=1):
+    """ext = 2: also the host int-subclass / float-subclass spellings."""
+    case = {'kind': 'call', 'fn': fname, 'args': tame_ext(fname, list(args)), 'ext': ext}
+    if expr:
+        case['expr'] = expr
+    return case
+
+
+def gen_arg_values(ctx, rng, names, models):
+    """Every function x every argument position x the boundary pool (+ the bounds of the argument model, + the lengths of the other
+    arguments); the other arguments mostly valid."""
+    bases = ctx.scale(1, 6)
+    for fname in names:
+        model = models[fname][1] if fname in models else None
+        for p, typ in positions_of(fname, models):
+            pool = list(NONNUM_POOL if typ not in ('number', None) else (ANY_POOL if typ is None and model and ctx.quick else VALUE_POOL))
+            if model and p < len(model) and typ == 'number':
+                pool = _dedupe(pool + bound_values(model[p]))
+            for _ in range(bases):
+                for v in pool:
+                    args = full_args(rng, fname, models, p)
+                    args[p] = N(v)
+                    yield ext_case(fname, args, ext=2), p, 'pool'
+                args = full_args(rng, fname, models, p)
+                for v in rel_values(args, skip=p):
+                    a2 = list(args)
+                    a2[p] = N(v)
+                    yield ext_case(fname, a2, ext=2), p, 'relative'
+
+
+def num_paths(enc, path=()):
+    """Paths to every integral number of an encoded value (through arrays and objects), with the length of the enclosing array."""
+    if is_num(enc):
+        yield path
+    elif isinstance(enc, dict) and 'a' in enc:
+        for i, x in enumerate(enc['a']):
+            yield from num_paths(x, path + (('a', i),))
+    elif isinstance(enc, dict) and 'o' in enc:
+        for i, (_, x) in enumerate(enc['o']):
+            yield from num_paths(x, path + (('o', i),))
+
+
+def set_path(enc, path, v):
+    if not path:
+        return v
+    kind, i = path[0]
+    if kind == 'a':
+        items = list(enc['a'])
+        items[i] = set_path(items[i], path[1:], v)
+        return dict(enc, a=items)
+    pairs = [list(p) for p in enc['o']]
+    pairs[i][1] = set_path(pairs[i][1], path[1:], v)
+    return dict(enc, o=pairs)
+
+
+def gen_leaf_values(ctx, rng, names, models):
+    """A generated call with ONE number at any depth (array element, object member, row field, measure / sort / schema attribute)
+    replaced by a boundary value."""
+    for fname in names:
+        for _ in range(ctx.scale(24, 400)):
+            case, _how = gen_case(rng, fname, models)
+            paths = [(ix,) + tuple(p) for ix, a in enumerate(case['args']) for p in num_paths(a) if p]
+            if not paths:
+                continue
+            path = rng.choice(paths)
+            v = rng.choice(VALUE_POOL + rel_values(case['args']))
+            args = list(case['args'])
+            args[path[0]] = set_path(args[path[0]], path[1:], N(v))
+            yield ext_case(fname, args), path[0], 'nested'
+
+
+def gen_sweeps(models):
+    """Small exhaustive sweeps: every index from -1 to length + 1 of unusual strings / short arrays (two indexes: the product), every
+    radix 0..37 x number texts, every digit count 0..23 x values."""
+    for s in VSTRINGS:
+        idx = list(range(-1, len(s) + 2)) if len(s) <= 6 else [-1, 0, 1, len(s) - 1, len(s), len(s) + 1]
+        for i in idx:
+            yield ext_case('stringCharCodeAt', [s, N(i)])
+            yield ext_case('stringRepeat', [s, N(i)])
+            yield ext_case('stringSlice', [s, N(i)])
+            for sub in _dedupe([s[1:2], s[-1:], '', s[:2]]):
+                yield ext_case('stringIndexOf', [s, sub, N(i)])
+                yield ext_case('stringLastIndexOf', [s, sub, N(i)])
+            for j in idx:
+                yield ext_case('stringSlice', [s, N(i), N(j)])
+    for n in range(0, 5):
+        arr = A(*[N(k % 3) for k in range(n)])
+        for i in range(-1, n + 2):
+            for fn in ('arrayGet', 'arrayDelete', 'arraySlice'):
+                yield ext_case(fn, [arr, N(i)])
+            yield ext_case('arraySet', [arr, N(i), 'v'])
+            yield ext_case('arraySet', [arr, N(i), N(i)])
+            yield ext_case('dataTop', [A(*[O(a=N(k % 2)) for k in range(n)]), N(i)])
+            yield ext_case('dataTop', [A(*[O(a=N(k % 2)) for k in range(n)]), N(i), A('a')])
+            for v in (N(0), N(1), N(2), 'q'):
+                yield ext_case('arrayIndexOf', [arr, v, N(i)])
+                yield ext_case('arrayLastIndexOf', [arr, v, N(i)])
+            for j in range(-1, n + 2):
+                yield ext_case('arraySlice', [arr, N(i), N(j)])
+    for size in range(-1, 6):
+        yield ext_case('arrayNewSize', [N(size)])
+        yield ext_case('arrayNewSize', [N(size), N(size)])
+    for radix in range(0, 38):
+        for text in PARSE_TEXTS:
+            yield ext_case('numberParseInt', [text, N(radix)])
+    for digits in range(0, 24):
+        for x in ROUND_XS:
+            yield ext_case('mathRound', [x, N(digits)])
+            yield ext_case('numberToFixed', [x, N(digits)])
+            yield ext_case('numberToFixed', [x, N(digits), True])
+    for indent in range(0, 18):
+        for v in (A(N(1), A(N(2), O(a=N(3)))), O(a=A(), b=O(), c=N(indent)), N(indent), 'x'):
+            yield ext_case('jsonStringify', [v, N(indent)])
+
+
+def number_positions(fname, models):
+    return [p for p, typ in positions_of(fname, models) if typ in ('number', None)]
+
+
+def is_sequence_fn(fname, models):
+    return fname not in models or any(am.get('lastArgArray') for am in models[fname][1])
+
+
+def gen_arg_pairs(ctx, rng, names, models):
+    """Two number-taking positions at once: the full product of the pair pool on the first two (variable) positions of the functions
+    taking a sequence of values, a sample of the product for every other pair of positions."""
+    for fname in names:
+        ps = number_positions(fname, models)
+        pairs = [(p, q) for i, p in enumerate(ps) for q in ps[i + 1:]]
+        seq = is_sequence_fn(fname, models)
+        for ix, (p, q) in enumerate(pairs):
+            if seq and (ix == 0 or not ctx.quick):
+                for v in PAIR_POOL:
+                    for w in PAIR_POOL:
+                        args = full_args(rng, fname, models, q)
+                        args[p], args[q] = N(v), N(w)
+                        yield ext_case(fname, args), (p, q), 'product'
+            else:
+                for _ in range(ctx.scale(70, 1500)):
+                    args = full_args(rng, fname, models, q)
+                    pool = PAIR_POOL + rel_values(args) * 2
+                    args[p], args[q] = N(rng.choice(pool)), N(rng.choice(pool))
+                    yield ext_case(fname, args), (p, q), 'sample'
+
+
+INDEXABLE_WRONG = ['abc', A('a', 'b', 'c'), A(N(1), N(2), N(3)), O(['0', 'x'], ['1', 'y'], ['2', 'z']), {'tuple': ['a', 'b', 'c']}, {'bytes': 'abc'},
+                   {'ikeys': [[0, 'x'], [1, 'y'], [2, 'z']]}, {'range': 3}]
+
+
+def gen_wrong_types(ctx, rng, names, models):
+    """Exactly one argument of another type - in particular of an INDEXABLE one (string, array, object with digit keys, host tuple /
+    bytes / range / int-keyed dict / str subclass / list and dict subclasses) - at every position; the number arguments are small
+    in-range indexes. Then two deviations: an indexable value of another type at one position AND a small number at another position
+    that does not take a number (a key, a separator, a flag: `objectGet(array, 1)`)."""
+    for fname in names:
+        poss = positions_of(fname, models)
+        for p, _typ in poss:
+            for _ in range(ctx.scale(1, 5)):
+                for wrong in WRONG_VALUES:
+                    args = full_args(rng, fname, models, p, strings=False)
+                    for q, qtyp in poss:
+                        if q != p and qtyp == 'number' and q < len(args):
+                            args[q] = N(rng.choice([0, 1, 2, 1, 2, 3]))
+                    args[p] = wrong
+                    yield ext_case(fname, args, ext=2), p, 'one'
+            for q, qtyp in poss:
+                if q == p or qtyp in ('number', None, 'ignored'):
+                    continue
+                for wrong in INDEXABLE_WRONG:
+                    args = full_args(rng, fname, models, max(p, q), strings=False)
+                    args[p] = wrong
+                    args[q] = N(rng.choice([0, 1, 2]))
+                    yield ext_case(fname, args), p, 'two'
+
+
+def expr_aliases():
+    """EXPRESSION_FUNCTIONS name -> SCRIPT_FUNCTIONS name it stands for: the library's own EXPRESSION_FUNCTION_MAP, else the script function
+    that is the same object, else the naming rule. (The two tables need not hold the same function object for a name.)"""
+    lib = fw.impl()['library']
+    table = getattr(lib, 'EXPRESSION_FUNCTION_MAP', None)
+    out = {}
+    for alias, fn in lib.EXPRESSION_FUNCTIONS.items():
+        hit = [table[alias]] if isinstance(table, dict) and table.get(alias) in lib.SCRIPT_FUNCTIONS else []
+        hit = hit or [name for name, f in lib.SCRIPT_FUNCTIONS.items() if f is fn]
+        if not hit:
+            cap = alias[0].upper() + alias[1:]
+            hit = [name for name in lib.SCRIPT_FUNCTIONS if name in ('string' + cap, 'math' + cap, 'datetime' + cap, 'number' + cap)]
+        if hit and hit[0] not in EXCLUDED:
+            out[alias] = hit[0]
+    return out
+
+
+def scalar_args(args):
+    return all(a is None or isinstance(a, (bool, str)) or is_num(a) or (isinstance(a, dict) and 'f' in a) for a in args)
+
+
+# --- the same call, the numbers produced in different ways (script level)
+
+PRODUCER_FORMS = ('lit', 'arith', 'json', 'ceil', 'charcode', 'hostint', 'hostfloat', 'alt')
+
+
+def _num_expr(form, n, i):
+    if form == 'lit':
+        return str(n)
+    if form == 'arith':
+        return f'({n - 1} + 1)'
+    if form == 'ceil':
+        return f'mathCeil({n} - 0.5)'
+    if form in ('hostint', 'hostfloat'):
+        return f'n{i}'
+    if form == 'charcode' and 0 <= n < 0x110000 and not 0xd800 <= n < 0xe000:
+        return f'stringCharCodeAt(c{i}, 0)'
+    return f"jsonParse('{n}')"
+
+
+def producer_script(case, form):
+    parts = []
+    k = 0
+    for i, a in enumerate(case['args']):
+        if is_num(a):
+            f = form if form != 'alt' else ('lit', 'json')[k % 2]
+            k += 1
+            parts.append(_num_expr(f, a['n'], i))
+        else:
+            parts.append(f'a{i}')
+    keep = ', '.join(f'a{i}' for i, a in enumerate(case['args']) if not is_num(a))
+    return f'r = {case["fn"]}({", ".join(parts)})\nreturn arrayNew(r{", " + keep if keep else ""})\n'
+
+
+def _norm_log(log):
+    out = []
+    for ln in log:
+        mt = _R_FAILED.match(ln)
+        out.append(ln if mt is None or mt.group(2).startswith(('Invalid "', 'Too many arguments (')) else mt.group(1))
+    return out
+
+
+def run_producer(case, form):
+    m = fw.impl()
+    model = m['parser'].parse_script(producer_script(case, form))
+    g = {}
+    for i, a in enumerate(case['args']):
+        if is_num(a):
+            g[f'n{i}'] = float(a['n']) if form == 'hostfloat' else int(a['n'])
+            if 0 <= a['n'] < 0x110000:
+                g[f'c{i}'] = chr(a['n'])
+        else:
+            g[f'a{i}'] = build(a, Speller('float'))
+    log = []
+    opts = {'globals': g, 'maxStatements': 20000, 'logFn': log.append, 'debug': True}
+    try:
+        with cpu_limit(case['fn']):
+            out = {'result': canon(m['runtime'].execute_script(model, opts))}
+    except CallTimeout:
+        out = {'raised': 'TIMEOUT'}
+    except Exception as exc:  # pylint: disable=broad-except
+        out = {'raised': type(exc).__name__, 'message': str(exc)}
+    out['args'] = [canon(g.get(f'a{i}')) for i, a in enumerate(case['args']) if not is_num(a)]
+    out['log'] = _norm_log(log)
+    out['statements'] = opts.get('statementCount')
+    return out
+
+
+def producers_differ(case):
+    outs = {form: run_producer(case, form) for form in PRODUCER_FORMS}
+    return any(v != outs['lit'] for v in outs.values()), outs
+
+
+# --- the same call inside dataCalculatedField expression text (built-in expression functions)
+
+DATAEXPR_FORMS = ('literal', 'fields:int', 'fields:float', 'variables:int', 'variables:float')
+
+
+def run_dataexpr(case, form):
+    m = fw.impl()
+    how, _, spelling = form.partition(':')
+    row, variables, parts = {'keep': 'k'}, {}, []
+    for i, a in enumerate(case['args']):
+        if is_num(a) and how == 'literal':
+            parts.append(str(a['n']))
+            continue
+        parts.append(f'x{i}')
+        if is_num(a):
+            (row if how == 'fields' else variables)[f'x{i}'] = int(a['n']) if spelling == 'int' else float(a['n'])
+        else:
+            row[f'x{i}'] = build(a, Speller('float'))
+    text = f'{case["expr"]}({", ".join(parts)})'
+    log = []
+    opts = {'globals': {}, 'maxStatements': 20000, 'statementCount': 0, 'logFn': log.append, 'debug': True}
+    fargs = [[row], 'z', text] + ([variables] if how == 'variables' else [])
+    try:
+        with cpu_limit(case['fn']):
+            res = m['library'].SCRIPT_FUNCTIONS['dataCalculatedField'](fargs, opts)
+        out = {'z': canon(res[0].get('z')), 'type': m['value'].value_type(res[0].get('z')), 'rows': len(res)}
+    except CallTimeout:
+        out = {'raised': 'TIMEOUT'}
+    except Exception as exc:  # pylint: disable=broad-except
+        out = {'raised': type(exc).__name__}
+    out['log'] = _norm_log(log)
+    return out
+
+
+def dataexpr_differ(case):
+    outs = {form: run_dataexpr(case, form) for form in DATAEXPR_FORMS}
+    return any(v != outs['literal'] for v in outs.values()), outs
+
+
+# --- the same calls in a fresh interpreter, the float spelling FIRST (a cache / memo keyed by the argument cannot tell 2 from 2.0:
+#     whichever spelling comes first in a process decides for both, so one process and one order can hide a spelling dependence)
+
+_FRESH_CALLS_SRC = r"""
+import importlib, json, sys
+sys.path.insert(0, sys.argv[1])
+import fw, extract
+extract._CACHE['mods'] = extract.fresh_import()
+mod = importlib.import_module('props.C12')
+out = []
+for case in json.load(sys.stdin):
+    out.append({sp: mod.run_call(case, sp)[0] for sp in mod.FRESH_ORDER})
+sys.stdout.write(json.dumps(out))
+"""
+
+
+def fresh_calls(cases):
+    """run_call of every case in every spelling, in a fresh interpreter process, float first."""
+    import json
+    import os
+    import subprocess
+    import sys
+    res = subprocess.run([sys.executable, '-c', _FRESH_CALLS_SRC, os.path.join(fw.VERIF, 'harness')], input=json.dumps(cases), capture_output=True,
+                         text=True, timeout=600, check=False, env=dict(os.environ, PYTHONHASHSEED='0'))
+    if res.returncode != 0:
+        raise fw.Infra('fresh call process failed: ' + res.stderr[-600:])
+    return json.loads(res.stdout)
+
+
+def fresh_differs(cases, fresh=None):
+    """-> [(differs, in-process outcomes, fresh-process outcomes)] per case."""
+    import json
+    fresh = fresh if fresh is not None else fresh_calls(cases)
+    out = []
+    for case, fr in zip(cases, fresh):
+        here = json.loads(json.dumps({sp: run_call(case, sp)[0] for sp in SPELLINGS_EXT}))
+        differ = any(fr[sp] != here['int'] for sp in FRESH_ORDER) or any(here[sp] != here['int'] for sp in SPELLINGS_EXT)
+        out.append((differ, here, fr))
+    return out
+
+
+# --- operators on boundary operands
+
+def op_boundary_cases(ctx, rng):
+    pool = [N(v) for v in _dedupe(PAIR_POOL + [-2, -3, 7, 16, 64, 2 ** 31 - 1, 2 ** 31, 2 ** 32, 2 ** 49, 10 ** 15 - 1, -(10 ** 15 - 1)])]
+    others = ['', 'abc', 'a\U0001f600b', '5', None, True, A(N(0), N(55357)), O(a=N(0)), {'dt': [2020, 1, 31, 10, 20, 30, 500000]}]
+    for op in BIN_OPS:
+        for _ in range(ctx.scale(160, 3000)):
+            left, right = rng.choice(pool), rng.choice(pool)
+            r = rng.random()
+            if r < 0.08:
+                left = rng.choice(others)
+            elif r < 0.16:
+                right = rng.choice(others)
+            if op_safe(op, left, right):
+                yield {'kind': 'binary', 'op': op, 'left': left, 'right': right}
+    for op in UN_OPS:
+        for v in pool:
+            yield {'kind': 'unary', 'op': op, 'left': v}
+
+
+def surrogate_code(case):
+    return case['fn'] == 'stringFromCharCode' and any(is_num(a) and 0xd800 <= a['n'] < 0xe000 for a in case['args'])
+
+
+def heavy(case):
+    """A size argument above the ceiling of the ordinary generators: checked in process only (the outcome is megabytes of text)."""
+    return any(ix < len(case['args']) and is_num(case['args'][ix]) and case['args'][ix]['n'] > 3000 for ix in SIZE_ARGS.get(case['fn'], ()))
+
+
+def ext_model_expressible(case):
+    """Cases of the value families the Lean host model can express: no expression-function path, no host-only values, no surrogate
+    char codes (a Lean Char cannot hold a surrogate: LibH.chrH reports them as an error), otherwise as model_expressible."""
+    return (not case.get('expr') and not heavy(case) and not any(has_key(a, HOST_ONLY_KEYS + ('cls',)) for a in case['args']) and
+            not surrogate_code(case) and model_expressible(case))
+
+
+def value_streams(ctx, lim, names, models, modelled_cases):
+    extra_model = []
+    cap_model = ctx.scale(2500, 30000)
+    sampled = []          # cases handed on to the producer / expression / fresh-process streams
+
+    def run(st, case, how, key, oracle, tags):
+        check_case(ctx, lim, st, case, how, key=key, tags=tags, oracle=oracle)
+        if case['fn'] in MODELLED and len(extra_model) < cap_model and ext_model_expressible(case):
+            extra_model.append(case)
+
+    st = ctx.stream('arg-values', 'every SCRIPT_FUNCTIONS entry x EVERY argument position (three of a variable tail; 0..2 without an argument model) x a '
+                                  'pool of %d boundary numbers (0..37 = every radix / digit count / month / hour, powers of two and ten and their '
+                                  'neighbours up to 1e15-1, negatives, char-code boundaries 0x7f/0x80/0x7ff/0x800, the surrogate range 0xd800..0xdfff, '
+                                  '0xffff/0x10000, 0x10ffff/0x110000) + the bounds of the argument model +-1 + length-1 / length / length+1 of the '
+                                  'other arguments (subject strings with astral, combining, case-expanding and lone-surrogate characters); ONE number at '
+                                  'any depth of a generated call replaced by a pool value; exhaustive sweeps (index -1..length+1 of %d strings and arrays '
+                                  'of length 0..4, two indexes: the product; radix 0..37 x %d texts; digits 0..23 x %d values; indent 0..17; size -1..5). '
+                                  'Compared: int / float / alternating (both phases) spellings, instances of host int / float SUBCLASSES (single-position '
+                                  'and wrong-type cases) and -0.0 for an integer-typed 0, on result, failure, '
+                                  'argument-error text, debug log, post-call arguments, globals. Size arguments capped (stringRepeat 70000, arrayNewSize '
+                                  '4096). non-trivial = an integral number occurs' % (len(VALUE_POOL), len(VSTRINGS), len(PARSE_TEXTS), len(ROUND_XS)))
+    rng = ctx.rng('arg-values')
+    nth = 0
+    for case, p, how in gen_arg_values(ctx, rng, names, models):
+        run(st, case, 'value:' + how, 'value:', 'spelling-irrelevant:boundary-value', [f'pos{p}'])
+        nth += 1
+        if nth % 5 == 0 and not heavy(case):
+            sampled.append(case)
+    for case, p, how in gen_leaf_values(ctx, rng, names, models):
+        run(st, case, 'value:' + how, 'value:', 'spelling-irrelevant:boundary-value', [f'pos{p}'])
+    for case in gen_sweeps(models):
+        run(st, case, 'value:sweep', 'sweep:', 'spelling-irrelevant:boundary-value', [])
+        nth += 1
+        if nth % 7 == 0 and not heavy(case):
+            sampled.append(case)
+
+    st = ctx.stream('arg-pairs', 'every function x every PAIR of number-taking positions x pairs from a pool of %d values (small, 12/13, 31/32, char-code '
+                                 'and surrogate boundaries: high+low, low+high, high+high, lone) + lengths of the other arguments: the full product on '
+                                 'the first two positions of the functions taking a sequence of values (stringFromCharCode, mathMax/Min, arrayNew, '
+                                 'objectNew, arrayPush, systemPartial, ...), a sample elsewhere (quick) / the full product on every pair of a sequence '
+                                 '(thorough); spellings and comparison as arg-values' % len(PAIR_POOL))
+    rng = ctx.rng('arg-pairs')
+    for case, pq, how in gen_arg_pairs(ctx, rng, names, models):
+        run(st, case, 'pair:' + how, 'pair:', 'spelling-irrelevant:boundary-pair', [f'pos{pq[0]}+{pq[1]}'])
+        nth += 1
+        if nth % 9 == 0 and not heavy(case):
+            sampled.append(case)
+
+    st = ctx.stream('arg-wrongtype', 'every function x every argument position x ONE argument of another type (%d values: strings, arrays, objects with '
+                                     'digit / length keys, list and dict subclass instances, host tuple / bytes / range / int-keyed dict / str subclass, '
+                                     'null, boolean, number, datetime, regex, function), the other arguments valid and the number arguments small '
+                                     'in-range indexes; and TWO deviations: an indexable value of another type at one position + a small number at '
+                                     'another position that takes no number. Spellings and comparison as arg-values. The host-only values are not expressible in the Lean '
+                                     'model (implementation-side oracle only)' % len(WRONG_VALUES))
+    rng = ctx.rng('arg-wrongtype')
+    for case, p, how in gen_wrong_types(ctx, rng, names, models):
+        run(st, case, 'wrongtype:' + how, 'wrong:', 'spelling-irrelevant:unexpected-type', [f'pos{p}'])
+
+    # --- built-in expression functions: evaluate_expression(builtins) and dataCalculatedField expression text
+    aliases = expr_aliases()
+    unmapped = [a for a in fw.impl()['library'].EXPRESSION_FUNCTIONS if a not in aliases and a not in ('now', 'today', 'rand')]
+    if unmapped:
+        ctx.notes.append('expr-functions: expression functions without a known script function (not generated for): ' + ', '.join(sorted(unmapped)))
+    by_fn = {}
+    for alias, fname in sorted(aliases.items()):
+        by_fn.setdefault(fname, []).append(alias)
+    st = ctx.stream('expr-functions', 'the boundary pools of arg-values / arg-pairs (every number-taking position x pool; pair product for sequences) and a '
+                                      'sample of their cases again through the built-in EXPRESSION function names (%d names: '
+                                      'fromCharCode, slice, rept, charCodeAt, indexOf, fixed, round, parseInt, date, ...): (a) evaluate_expression resolving '
+                                      'the name through its `builtins` table, four spellings; (b) every third scalar argument list inside dataCalculatedField '
+                                      'expression text, the numbers as literals / row fields / variables x int / float. Host-side path, not in the Lean '
+                                      'model' % len(aliases))
+    rng = ctx.rng('expr-functions')
+    per_alias = ctx.scale(40, 1500)
+    nexpr = 0
+    pool_by_fn = {}
+    for case in sampled:
+        pool_by_fn.setdefault(case['fn'], []).append(case)
+    for fname, names_ in sorted(by_fn.items()):
+        pool = pool_by_fn.get(fname, [])
+        for alias in names_:
+            arg_lists = []
+            model = models[fname][1] if fname in models else None
+            # every number-taking position x the boundary pool (+ lengths of the other arguments), as in arg-values
+            for p, typ in positions_of(fname, models):
+                if typ not in ('number', None):
+                    continue
+                for v in (ANY_POOL if typ is None and model and ctx.quick else VALUE_POOL):
+                    args = full_args(rng, fname, models, p)
+                    args[p] = N(v)
+                    arg_lists.append(args)
+                args = full_args(rng, fname, models, p)
+                for v in rel_values(args, skip=p):
+                    arg_lists.append(args[:p] + [N(v)] + args[p + 1:])
+            if is_sequence_fn(fname, models):
+                # a function of a sequence of values: the full product of the pair pool here too
+                arg_lists += [[N(v), N(w)] + ([N(rng.randint(65, 90))] if rng.random() < 0.3 else []) for v in PAIR_POOL for w in PAIR_POOL]
+            for _ in range(per_alias):
+                if pool:
+                    arg_lists.append(rng.choice(pool)['args'])
+            for args in arg_lists:
+                case = ext_case(fname, args, expr=alias)
+                run(st, case, 'expr', 'expr:', 'spelling-irrelevant:expression-function', [f'alias:{alias}'])
+                nexpr += 1
+                if scalar_args(case['args']) and not has_key(case['args'], ('same',)) and (nexpr % 3 == 0 or not ctx.quick):
+                    dcase = {'kind': 'dataexpr', 'fn': fname, 'expr': alias, 'args': case['args']}
+                    differ, outs = dataexpr_differ(dcase)
+                    st.case(dcase, nontrivial=any(is_num(a) for a in dcase['args']), tags=['dataexpr', f'alias:{alias}'])
+                    if differ:
+                        lim.witness('dataexpr:' + alias, 'spelling-irrelevant:data-expression', dcase, outs['literal'],
+                                    next(v for v in outs.values() if v != outs['literal']), all_outcomes=outs)
+
+    # --- script text: the number produced as literal / by arithmetic / by jsonParse / mathCeil / stringCharCodeAt / host int / host float
+    st = ctx.stream('number-producers', 'a sample of the boundary cases as SCRIPT TEXT `r = fn(...)`, every top-level number argument produced as a '
+                                        'literal (float), by script arithmetic (float), by jsonParse (int), by mathCeil (int), by stringCharCodeAt of '
+                                        'that character (int), as a host int global, as a host float global, literal / jsonParse alternating: result, '
+                                        'post-call arguments, debug log and statement count must agree. all non-trivial')
+    rng = ctx.rng('number-producers')
+    cands = [c for c in sampled if any(is_num(a) for a in c['args']) and not any(has_key(a, ('same',)) for a in c['args'])]
+    rng.shuffle(cands)
+    for case in cands[:ctx.scale(1500, 30000)]:
+        pcase = {'kind': 'producers', 'fn': case['fn'], 'args': case['args']}
+        differ, outs = producers_differ(pcase)
+        st.case(pcase, nontrivial=True, tags=[f'fn:{case["fn"]}', 'raised' if 'raised' in outs['lit'] else 'ran'])
+        if differ:
+            lim.witness('producers:' + case['fn'], 'spelling-irrelevant:number-producer', pcase, outs['lit'],
+                        next(v for v in outs.values() if v != outs['lit']), all_outcomes=outs)
+
+    # --- operators
+    st = ctx.stream('operators-boundary', 'every binary operator x random pairs from the pair pool + 2^31, 2^32, 2^49, +-(1e15-1) (sometimes a string / '
+                                          'array / object / datetime on one side), 4 spelling combinations; every unary operator on the pool')
+    for case in op_boundary_cases(ctx, ctx.rng('operators-boundary')):
+        check_case(ctx, lim, st, case, 'op', key='opb:')
+
+    # --- fresh interpreter, float first
+    st = ctx.stream('fresh-order', 'a sample of the boundary cases run in a FRESH interpreter process in the order float, alternating, int and compared '
+                                   'with this process (order int, float, alternating): a cache keyed by the argument value cannot tell 2 from 2.0, so '
+                                   'the first spelling seen in a process would decide for both. Host-side (process state) - not in the Lean model')
+    rng = ctx.rng('fresh-order')
+    cands = list(sampled)
+    rng.shuffle(cands)
+    cands = cands[:ctx.scale(2500, 40000)]
+    for case, (differ, here, fr) in zip(cands, fresh_differs(cands)):
+        st.case(case, nontrivial=sum(count_nums(a) for a in case['args']) > 0, tags=[f'fn:{case["fn"]}'])
+        if differ:
+            lim.witness('fresh:' + case['fn'], 'spelling-irrelevant:fresh-order', dict(case, fresh=1), here['int'],
+                        next((fr[sp] for sp in FRESH_ORDER if fr[sp] != here['int']), None) or next(here[sp] for sp in SPELLINGS_EXT if here[sp] != here['int']),
+                        in_process=here, fresh_process=fr)
+
+    modelled_cases.extend(extra_model)
+
+
+# ---------------------------------------------------------------------------------------------------------------------
 # Known finding F15
 # ---------------------------------------------------------------------------------------------------------------------
 
 def _is_f15(w):
     case = w.get('input') or {}
-    if case.get('kind') != 'call' or case.get('fn') not in ('mathRound', 'numberToFixed'):
+    if case.get('kind') not in ('call', 'dataexpr', 'producers'):
         return False
     args = case.get('args') or []
+    if case.get('fn') == 'systemPartial' and args and isinstance(args[0], dict) and args[0].get('fn') in ('mathRound', 'numberToFixed'):
+        args = args[1:]       # the digit count of a partially applied mathRound / numberToFixed
+    elif case.get('fn') not in ('mathRound', 'numberToFixed'):
+        return False
     return len(args) >= 2 and isinstance(args[1], dict) and 'n' in args[1] and args[1]['n'] >= 23
 
 
@@ -1174,8 +2022,11 @@ def impl_for_model(case, spelling):
         g[f'a{i}'] = a
     expr = {'function': {'name': case['fn'], 'args': [{'variable': f'a{i}'} for i in range(len(args))]}}
     try:
-        res = m['runtime'].evaluate_expression(expr, {'globals': g, 'maxStatements': 1000, 'statementCount': 0})
+        with cpu_limit(case['fn']):
+            res = m['runtime'].evaluate_expression(expr, {'globals': g, 'maxStatements': 1000, 'statementCount': 0})
         out = {'result': wire_abs(res), 'args': [wire_abs(a) for a in args]}
+    except CallTimeout:
+        out = {'escaped': 'TIMEOUT'}
     except Exception as exc:  # pylint: disable=broad-except
         out = {'escaped': type(exc).__name__}
     return request, out
@@ -1213,9 +2064,9 @@ def load_corpus():
     return cases
 
 
-def check_case(ctx, lim, st, case, how, key='', tags=(), nontrivial=None):
+def check_case(ctx, lim, st, case, how, key='', tags=(), nontrivial=None, oracle=None):
     if case['kind'] == 'call':
-        differ, outs, classes = call_differs(case)
+        differ, outs, classes = call_differs_ext(case) if case.get('ext') else call_differs(case)
         nn = sum(count_nums(a) for a in case['args'])
         tags = [f'fn:{case["fn"]}', f'gen:{how}', 'failed' if outs['int']['failed'] else 'ok', f'nargs{len(case["args"])}'] + list(tags)
         if classes['int'] != classes['float']:
@@ -1223,9 +2074,9 @@ def check_case(ctx, lim, st, case, how, key='', tags=(), nontrivial=None):
         st.case(case, nontrivial=nn > 0 if nontrivial is None else nontrivial, tags=tags)
         if differ:
             # instances of the known finding F15 do not use up the witness budget of their function
-            lim.witness(key + case['fn'] + (':F15' if _is_f15({'input': case}) else ''), 'spelling-irrelevant:call', case, outs['int'],
-                        outs['float'] if outs['float'] != outs['int'] else outs['mix'],
-                        spelling_of_actual='float' if outs['float'] != outs['int'] else 'mix', exception_classes=classes)
+            bad = next(sp for sp in outs if outs[sp] != outs['int'])
+            lim.witness(key + case['fn'] + (':F15' if _is_f15({'input': case}) else ''), oracle or 'spelling-irrelevant:call', case, outs['int'],
+                        outs[bad], spelling_of_actual=bad, exception_classes=classes)
         return outs
     if case['kind'] in ('binary', 'unary'):
         differ, outs = op_differs(case)
@@ -1248,6 +2099,15 @@ def check_case(ctx, lim, st, case, how, key='', tags=(), nontrivial=None):
         st.case(case['text'], nontrivial=True, tags=['script', 'raised' if 'raised' in outs['float'] else 'ran'])
         if differ:
             lim.witness('script', 'spelling-irrelevant:script', case, outs['int'], outs['float'])
+        return outs
+    if case['kind'] in ('producers', 'dataexpr'):
+        differ, outs = producers_differ(case) if case['kind'] == 'producers' else dataexpr_differ(case)
+        first = next(iter(outs.values()))
+        st.case(case, nontrivial=True, tags=[case['kind'], f'fn:{case["fn"]}'] + list(tags))
+        if differ:
+            lim.witness(key + case['kind'] + ':' + case['fn'], oracle or ('spelling-irrelevant:number-producer' if case['kind'] == 'producers' else
+                                                                           'spelling-irrelevant:data-expression'),
+                        case, first, next(v for v in outs.values() if v != first), all_outcomes=outs)
         return outs
     raise ValueError(case['kind'])
 
@@ -1300,11 +2160,14 @@ def streams(ctx):
     # --- host-created containers
     host_streams(ctx, lim, names, models, modelled_cases)
 
+    # --- boundary values at every argument position, unexpected argument types, expression functions, number producers, fresh process
+    value_streams(ctx, lim, names, models, modelled_cases)
+
     # --- correspondence: implementation vs Lean LibH for both spellings (+ the abstract spec)
     st = ctx.stream('libh-model', 'modelled host-level subset (%s): implementation vs Lean LibH on the int, float and alternating spelling and vs '
                                   'the abstract one-number-type function; by-value cases without aliasing; non-trivial = an integral number occurs' % ', '.join(MODELLED))
     if ctx.driver is not None:
-        extra = [c for c in corpus if c.get('kind') == 'call' and model_expressible(c)]
+        extra = [c for c in corpus if c.get('kind') == 'call' and (ext_model_expressible(c) if c.get('ext') else model_expressible(c))]
         reqs, outs, metas = [], [], []
         for case in extra + modelled_cases:
             for sp in SPELLINGS:
@@ -1425,18 +2288,34 @@ def search(ctx):
         check_case(ctx, lim, st, gen_hostscript(rng), 'host-script', key='host-script:')
         if ctx.witnesses:
             return
+    names = [n for n in lib.SCRIPT_FUNCTIONS if n not in EXCLUDED]
+    for gen in (gen_arg_values, gen_arg_pairs):
+        for case, _p, how in gen(ctx, rng, names, models):
+            check_case(ctx, lim, st, case, 'value:' + how, key='value:', oracle='spelling-irrelevant:boundary-value')
+            if ctx.witnesses:
+                return
+    for case, _p, _how in gen_wrong_types(ctx, rng, names, models):
+        check_case(ctx, lim, st, case, 'wrongtype', key='wrong:', oracle='spelling-irrelevant:unexpected-type')
+        if ctx.witnesses:
+            return
 
 
 def replay(witness):
     case = witness['input']
     if case['kind'] == 'call':
-        return call_differs(case)[0]
+        if case.get('fresh'):
+            return fresh_differs([case])[0][0]
+        return (call_differs_ext(case) if case.get('ext') else call_differs(case))[0]
     if case['kind'] in ('binary', 'unary'):
         return op_differs(case)[0]
     if case['kind'] == 'script':
         return script_differs(case['text'])[0]
     if case['kind'] == 'hscript':
         return hscript_differs(case)[0]
+    if case['kind'] == 'producers':
+        return producers_differ(case)[0]
+    if case['kind'] == 'dataexpr':
+        return dataexpr_differ(case)[0]
     return False
 
 
@@ -1449,10 +2328,22 @@ LEVEL_TEXT = ('Theorems (all arguments, all argument-model tables): for the host
               'on every run. All other library functions, the operators and script-level literals are covered by the implementation-side '
               'metamorphic oracle (stream libnum/operators/script) only; the same oracle runs with the numbers inside host-created dict / list '
               'subclass instances (OrderedDict, defaultdict, Counter, application subclasses) for every function, every operator, every '
-              'container-to-text path and scripts over host-provided globals (streams host-containers/host-text/host-script).')
+              'container-to-text path and scripts over host-provided globals (streams host-containers/host-text/host-script); and with a pool '
+              'of boundary VALUES (every radix / digit count, surrogate and other char-code boundaries, lengths of the other arguments, huge '
+              'counts, -0.0) at every argument position and pair of positions of every function, one argument of an unexpected (indexable) '
+              'type at every position, the built-in expression-function names, dataCalculatedField expression text, the numbers produced by '
+              'literal / arithmetic / jsonParse / mathCeil / stringCharCodeAt / host, and a fresh interpreter running the float spelling first '
+              '(streams arg-values/arg-pairs/arg-wrongtype/expr-functions/number-producers/operators-boundary/fresh-order); the model-expressible '
+              'part of those cases (no surrogate char codes: a Lean Char cannot hold one) is also compared with LibH.')
 LEVEL_NOTE = ('proof for the host-level subset (index/count/size/radix/char-code users); translation-validation strength for the remaining library '
               'functions, where numbers only flow into comparison/arithmetic/stringification and Python int-vs-float mixed operations are exact on '
               'the values (assumption, DESIGN 6) - those are covered by the libnum/operators/script streams, not by a theorem. The model is by-value '
               '(no aliasing); IEEE rounding enters only as the abstract function rnd in roundNumber_refines. Known: F15. Observation, outside the '
               'quantifier: -0.0 (not float(n) of any int n; equal to 0 by value_compare) prints as "-0" where the int 0 prints "0" (value.py:70), '
               'reachable as -x / x * -1 on a float zero; results are compared by value, so it is not flagged.')
+
+
+# extension: further model code, theorems and streams (DESIGN 13.7)
+from props import c12x as _ext  # noqa: E402  pylint: disable=wrong-import-position
+_ext.EXTRA_ROOTS = ['Drv.C12X']
+fw.attach_extension(globals(), _ext)
